@@ -465,6 +465,21 @@ Definition mon_C14 (c : cfg) (tr : trace) : list failure :=
      | _ => [] end) tr.
 
 (* ---------- C16 ---------- *)
+(* complete messages among the data frames of stream [tid] in direction [d] delivered no later than
+   action [upto] (size-level image of the reassembly of Frames.v) *)
+Definition complete_msgs (tid : N * Z) (d : dir) (upto : option N) (dl : list (N * dir * N * Z * fkind)) : nat :=
+  let frames := flat_map (fun x => match x with (a, d', t, id, k) =>
+      if dir_eqb d d' && N.eqb t (fst tid) && Z.eqb id (snd tid) && (match upto with Some u => a <=? u | None => true end)
+      then match k with KMsg sz len => [(Some sz, len)] | KMore len => [(None, len)] | _ => [] end else [] end) dl in
+  let '(_, n, _) := fold_left (fun (st : option (N * N) * nat * bool) f =>
+      let '(cur, n, bad) := st in
+      if bad then st else
+      match f, cur with
+      | (Some sz, len), None => if sz <? len then (None, n, true) else if len =? sz then (None, S n, false) else (Some (sz, len), n, false)
+      | (None, len), Some (sz, got) => if sz <? got + len then (None, n, true) else if got + len =? sz then (None, S n, false) else (Some (sz, got + len), n, false)
+      | _, _ => (None, n, true)
+      end) frames (None, O, false) in n.
+
 Definition mon_C16_rpc (c : cfg) (tr : trace) (r : N) (sh : shape) : list failure :=
   let dl := deliveries tr in
   (* handler of a method with a non-streaming request *)
@@ -476,11 +491,10 @@ Definition mon_C16_rpc (c : cfg) (tr : trace) (r : N) (sh : shape) : list failur
       | None => []
       | Some tid =>
           let halves := delivered_kind tid C2S is_half dl in
-          let envs := delivered_kind tid C2S is_env dl in
-          let before_half := match halves with [] => envs | h :: _ => filter (fun a => a <=? h) envs end in
-          match before_half, recvd (Hr r) tr with
-          | _ :: _ :: _, _ :: _ => fl 1604 0 (zr r) 0
-          | _, _ => []
+          let n := complete_msgs tid C2S (match halves with [] => None | h :: _ => Some h end) dl in
+          match recvd (Hr r) tr with
+          | _ :: _ => if Nat.leb 2 n then fl 1604 0 (zr r) (Z.of_nat n) else []
+          | [] => []
           end
       end)) ++
   (* caller of a method with a non-streaming response *)
@@ -495,9 +509,8 @@ Definition mon_C16_rpc (c : cfg) (tr : trace) (r : N) (sh : shape) : list failur
             | None => []
             | Some tid =>
                 let closes := delivered_kind tid S2C is_close dl in
-                let envs := delivered_kind tid S2C is_env dl in
-                let before_close := match closes with [] => envs | h :: _ => filter (fun a => a <=? h) envs end in
-                match before_close with [_] => [] | _ => fl 1605 0 (zr r) (Z.of_nat (length before_close)) end
+                let n := complete_msgs tid S2C (match closes with [] => None | h :: _ => Some h end) dl in
+                if Nat.eqb n 1 then [] else fl 1605 0 (zr r) (Z.of_nat n)
             end
           else
             match handler_status r tr with
@@ -505,8 +518,13 @@ Definition mon_C16_rpc (c : cfg) (tr : trace) (r : N) (sh : shape) : list failur
             | _ => fl 1606 0 (zr r) 0
             end
       end)).
+(* with a raw tunnel client there are no caller-side events: the RPCs are those whose handler started *)
+Definition handler_rpcs (tr : trace) : list (N * shape) :=
+  flat_map (fun e => match snd e with HStart r sh _ _ _ _ _ => [(r, sh)] | _ => [] end) tr.
+
 Definition mon_C16 (c : cfg) (tr : trace) : list failure :=
-  flat_map (fun x => match x with (r, _, sh, _, _, _, _, _) => mon_C16_rpc c tr r sh end) (rpcs_of tr).
+  if c_rawc c then flat_map (fun x => mon_C16_rpc c tr (fst x) (snd x)) (handler_rpcs tr)
+  else flat_map (fun x => match x with (r, _, sh, _, _, _, _, _) => mon_C16_rpc c tr r sh end) (rpcs_of tr).
 
 (* ---------- C17 ---------- *)
 Definition mon_C17 (c : cfg) (tr : trace) : list failure :=
@@ -566,4 +584,4 @@ Definition mon_C18 (tr : trace) : list failure :=
 
 (* ---------- a panic or a duplicate handler start is always a failure (C09 / C08) ---------- *)
 Definition mon_panic (tr : trace) : list failure :=
-  flat_map (fun e => match e with (a, Panic) => fl 901 a 0 0 | _ => [] end) tr.
+  flat_map (fun e => match e with (a, Panic) => fl 901 a 0 0 | (a, HarnessFail c x y) => fl c a x y | _ => [] end) tr.
